@@ -281,7 +281,8 @@ def run_spec(spec, R):
                         "sig": ["history", "O2", op.kind, rec["k"], rec["v"].split(":")[0] if rec["k"] == "exc" else "value"],
                     }
                 )
-        if viol and ":globalns" in op.name:
+        _names = [st.get("op", "") for st in spec["steps"][: i + 1]]
+        if viol and ":globalns" in op.name and any(":globalns2" in nm for nm in _names) and any(":globalns" in nm and ":globalns2" not in nm for nm in _names):
             # metadata built under one SerializerConfig.globalns serves every later caller (recorded finding)
             for v in viol:
                 if v["sig"][0] != "globalns-override":
